@@ -67,6 +67,9 @@ type c18Scen struct {
 	// (0 = the default limit): every packet is legal, but a websocket message packing several packets is longer
 	// than the limit - which must not matter, the limit is about MQTT packets
 	TightMax int `json:"tight_max_packet_size,omitempty"`
+	// WaitBeforePing: the closing PINGREQ is only sent after every other response has arrived - whatever the broker has
+	// written for the client must reach it without the help of later traffic
+	WaitBeforePing bool `json:"wait_before_ping,omitempty"`
 }
 
 // c18Config is the broker configuration of a case (the same for the reference run and the websocket run).
@@ -209,6 +212,7 @@ func genC18(t *rapid.T) c18Scen {
 	if rapid.IntRange(0, 3).Draw(t, "tight") == 0 {
 		s.TightMax = rapid.IntRange(1, 3).Draw(t, "tightmax")
 	}
+	s.WaitBeforePing = rapid.Bool().Draw(t, "wait_before_ping")
 	npub := rapid.IntRange(1, 6).Draw(t, "npub")
 	near := func(ts []int) int {
 		total := rapid.SampledFrom(ts).Draw(t, "total")
@@ -598,10 +602,22 @@ func runC18(s c18Scen, c *ev.Case) *ev.Violation {
 		}
 		sent++
 	}
-	if sendErr == nil {
-		if sendErr = ws.WriteMessage(fixture.WSBinary, c18Ping); sendErr != nil {
-			c.Logf("write of the closing PINGREQ failed: %v", sendErr)
+	pingSent := false
+	sendPing := func() {
+		if pingSent {
+			return
 		}
+		pingSent = true
+		if sendErr == nil {
+			if sendErr = ws.WriteMessage(fixture.WSBinary, c18Ping); sendErr != nil {
+				c.Logf("write of the closing PINGREQ failed: %v", sendErr)
+			}
+		}
+	}
+	if !(s.WaitBeforePing && textIdx < 0) {
+		sendPing()
+	} else {
+		c.Label("closing_ping_after_all_responses")
 	}
 	nonBinary := func() *ev.Violation {
 		for i, f := range ws.Frames() {
@@ -644,6 +660,9 @@ func runC18(s c18Scen, c *ev.Case) *ev.Violation {
 	// after waiting for a later one), each against the next one of its own sequence.
 	ci, pi := 0, 0
 	for ci < len(ref.ctl) || pi < len(ref.pubs) {
+		if ci == len(ref.ctl)-1 && pi == len(ref.pubs) {
+			sendPing() // everything but the closing PINGRESP is in
+		}
 		got, err := cl.WaitFor(func(*mw.Packet) bool { return true }, c18Wait)
 		if err != nil {
 			if ci < len(ref.ctl) {
